@@ -170,11 +170,12 @@ def makeUnique (m : List (Nat × Nat)) (id : Nat) : List (Nat × Nat) × IdStr :
 /-- `format!("{a:#x}")` (string_table.rs:60-68) -/
 def hexStr (a : Nat) : Str := "0x" ++ String.ofList (Nat.toDigits 16 a)
 
-/-- write a thread back. `Thread::process` has no setter in the Rust code (thread.rs:24, 88-90): the
-stored thread keeps the process of the thread it replaces (every caller passes an update of the
-thread it read from slot `i`, so this is the same value). -/
+/-- write a thread's tables back. `Thread::process` has no setter in the Rust code and `Thread::tid` is
+written only by `set_tid` (thread.rs:24-25, 80-90): the stored thread keeps the process and the tid of
+the thread it replaces (every caller passes an update of the thread it read from slot `i`, so these
+are the same values). -/
 def P.setThread (p : P) (i : Nat) (t : Thread) : P :=
-  { p with threads := p.threads.modify i (fun old => { t with process := old.process }) }
+  { p with threads := p.threads.modify i (fun old => { t with process := old.process, tid := old.tid }) }
 
 /-- `handle_for_category` (profile.rs:262-270) -/
 def P.handleForCategory (p : P) (name : Str) (color : Nat) : P × Nat :=
@@ -527,9 +528,9 @@ def step (p : P) : Op → P × Out
     -- profile.rs:498-501
     match p.threads[t]? with
     | none => (p, .invalid)
-    | some th =>
+    | some _ =>
       let r := makeUnique p.usedTids tid
-      ({ p with usedTids := r.1 }.setThread t { th with tid := r.2 }, .ok)
+      ({ p with usedTids := r.1, threads := p.threads.modify t (fun old => { old with tid := r.2 }) }, .ok)
   | .setName t name =>
     match p.threads[t]? with
     | none => (p, .invalid)
